@@ -132,7 +132,12 @@ def requests(tier, rng):
                  hs([9, 5], [1, 2] + [2] * (k - 2)),          # decreasing across polynomials is fine
                  hs(list(range(om)), [om] * k),               # exactly omega in row 0
                  hs([0] * om, [0] * k), hs([255] * 3, [1, 2, 3] + [3] * (k - 3)),
-                 hs([1, 5, 9], [255] * k), hs([], [0] * (k - 1) + [1])]
+                 hs([1, 5, 9], [255] * k), hs([], [0] * (k - 1) + [1]),
+                 # strictly increasing index area AND increasing counters above omega: a decoder with a loose counter bound
+                 # walks past the index area (and past the end of the signature)
+                 hs(list(range(om)), [om + 2 + i for i in range(k)]), hs(list(range(om)), [om + k + 5 + i for i in range(k)]),
+                 hs(list(range(om)), [om + 1] * k), hs(list(range(1, om + 1)), [om, om - 1] + [om] * (k - 2)),
+                 hs(list(range(om)), [om - 3, om - 5] + [om] * (k - 2)), hs(list(range(om)), [5, 3, 9] + [om] * (k - 3))]
         for c in cases:
             L.append("packing::%s::unpack_sig %s" % (s, hx(c)))
         for _ in range(3):
